@@ -1121,3 +1121,69 @@ Proof.
     [discriminate|]. cbn [of_loop] in HL. subst r. rewrite <- E.
   eapply dct_loop_post; [| |exact EL]; [cbn; lia|lia].
 Qed.
+
+Lemma div_add_le a b c : 0 <= a -> 0 <= b -> 0 < c -> a / c + b / c <= (a + b) / c.
+Proof.
+  intros Ha Hb Hc.
+  pose proof (Z.div_mod a c ltac:(lia)). pose proof (Z.div_mod b c ltac:(lia)). pose proof (Z.div_mod (a + b) c ltac:(lia)).
+  pose proof (Z.mod_pos_bound a c Hc). pose proof (Z.mod_pos_bound b c Hc). pose proof (Z.mod_pos_bound (a + b) c Hc).
+  nia.
+Qed.
+
+(* repair 15: the loop of ADF_Read_All_Data over the data-chunk table.  [room] = bytes left in the caller's buffer behind
+   data_pointer; the invariant says the zero fill of what is still missing fits *)
+Section RadLoop.
+Variables (teq : bool) (total mb fb : Z).
+Hypothesis Hfb : 0 < fb.
+Hypothesis Hmb : 0 <= mb.
+Hypothesis Hteq : teq = true -> mb = fb.
+Definition rad_inv (nread room : Z) : Prop := 0 <= nread <= total /\ ((total - nread) * mb) / fb <= room.
+
+Lemma rad_loop_spec tbl cap : forall n i nread room acc, 0 <= i -> i + Z.of_nat n <= Z.of_nat (length tbl) ->
+  rad_inv nread room ->
+  safe (rad_loop R f teq tbl cap n i total nread mb fb room acc) /\
+  forall nr rm d, rad_loop R f teq tbl cap n i total nread mb fb room acc = Ok (nr, rm, d) -> rad_inv nr rm.
+Proof.
+  induction n as [|n IH]; intros i nread room acc Hi Hb Hinv.
+  - cbn [rad_loop]. split; [exact I|]. intros nr rm d H. inversion H; subst. exact Hinv.
+  - cbn [rad_loop]. unfold tbl_get. destruct (nth_error tbl (Z.to_nat i)) as [[s en]|] eqn:E;
+      [|apply nth_error_None in E; lia].
+    cbn [bind]. cbn [fx_rad repaired andb].
+    set (btr0 := toS64 ((fst en - fst s) * BLK + (snd en - snd s) - 16)).
+    destruct (Z.ltb_spec btr0 0) as [Hneg|Hpos]; [split; [exact I|discriminate]|].
+    set (btr := if nread + btr0 >? total then total - nread else btr0).
+    destruct Hinv as (Hn & Hq).
+    assert (Hbtr : 0 <= btr <= total - nread) by (unfold btr; destruct (Z.gtb_spec (nread + btr0) total); lia).
+    destruct (Z.eqb_spec btr 0) as [Hz|Hz]; [split; [exact I|]; intros nr rm d H; inversion H; subst; split; assumption|].
+    assert (Hstep : rad_inv (nread + btr) (room - Z.quot (btr * mb) fb)).
+    { split; [lia|]. rewrite Z.quot_div_nonneg by nia.
+      pose proof (div_add_le (btr * mb) ((total - (nread + btr)) * mb) fb ltac:(nia) ltac:(nia) Hfb) as D.
+      replace (btr * mb + (total - (nread + btr)) * mb) with ((total - nread) * mb) in D by ring. lia. }
+    assert (Hread : safe (read_data_chunk R f s fb teq btr 0 btr room 7)).
+    { apply read_data_chunk_safe. intros Hd. apply direct_teq in Hd. rewrite (Hteq Hd) in Hq.
+      rewrite Z.div_mul in Hq by lia. lia. }
+    destruct (read_data_chunk R f s fb teq btr 0 btr room 7) as [d| | | | | | | | |] eqn:Er; cbn [bind];
+      try (split; [exact Hread|discriminate]).
+    apply IH; [lia|lia|exact Hstep].
+Qed.
+End RadLoop.
+
+(* ---- repair 08 / 14 / 15: the caller's buffer.  The client (harness/c13_adf.c, cgio_read_all_data_type) brings
+   mach_size(type) * count bytes and names the type it was told *)
+Definition simple_types : list (Z * Z) :=
+  [(67, 49); (66, 49); (73, 52); (85, 52); (82, 52); (73, 56); (85, 56); (82, 56); (88, 52); (88, 56)].
+
+Lemma mach_size_types t : 0 < mach_size t -> exists c1 c2, t = [c1; c2] /\ In (c1, c2) simple_types.
+Proof.
+  unfold mach_size. destruct t as [|c1 [|c2 [|c3 u]]]; try lia. intros H. exists c1, c2. split; [reflexivity|].
+  destruct (Z.eqb_spec c2 49) as [->|N1]; [|destruct (Z.eqb_spec c2 52) as [->|N2]; [|destruct (Z.eqb_spec c2 56) as [->|N3]]].
+  - destruct (Z.eqb_spec c1 67) as [->|]; [cbn; tauto|]. destruct (Z.eqb_spec c1 66) as [->|]; [cbn; tauto|].
+    cbn in H. rewrite !Bool.andb_false_r in H. cbn in H. lia.
+  - destruct (Z.eqb_spec c1 73) as [->|]; [cbn; tauto|]. destruct (Z.eqb_spec c1 85) as [->|]; [cbn; tauto|].
+    destruct (Z.eqb_spec c1 82) as [->|]; [cbn; tauto|]. destruct (Z.eqb_spec c1 88) as [->|]; [cbn; tauto|].
+    cbn in H. rewrite ?Bool.andb_false_r in H. cbn in H. lia.
+  - destruct (Z.eqb_spec c1 73) as [->|]; [cbn; tauto|]. destruct (Z.eqb_spec c1 85) as [->|]; [cbn; tauto|].
+    destruct (Z.eqb_spec c1 82) as [->|]; [cbn; tauto|]. destruct (Z.eqb_spec c1 88) as [->|]; [cbn; tauto|].
+    cbn in H. rewrite ?Bool.andb_false_r in H. cbn in H. lia.
+  - cbn in H. rewrite ?Bool.andb_false_r in H. cbn in H. lia.
+Qed.
